@@ -264,6 +264,8 @@ var scenarioTable = map[string]func() Scenario{
 	"S-leased": scLeased,
 	"S-life":   scLife,
 	"S-meter":  scMeter,
+	"S-attr":   scAttr,
+	"S-attr-leased": scAttrLeased,
 	"S-cert":   scCert(certSerials),
 	"S-collide": scCollide,
 	"S-grid":   scGrid,
